@@ -43,6 +43,11 @@ TRUSTED = [
 CONFIGS = ("blocking", "generic-blocking", "asyncio", "threadpool")
 
 
+def dumps(x, **kw):
+    """json.dumps that cannot raise on what a broken executor may put into `data` (e.g. a Future object)."""
+    return json.dumps(x, default=lambda o: "<%s>" % type(o).__name__, **kw)
+
+
 # ---------------------------------------------------------------------------
 
 def unexpected_kinds(case):
@@ -70,7 +75,7 @@ def compare_to_reference(case, ref, obs, config):
         return None
     if obs["status"] == "failed":
         return ("spurious-failure", "%s fails with %s, reference returns a result" % (config, obs["exc"]))
-    if json.dumps(obs["data"]) != json.dumps(ref["data"]):
+    if dumps(obs["data"]) != dumps(ref["data"]):
         return ("data-differs", "data differs from BlockingExecutor")
     if obs["errors"] != ref["errors"]:
         return ("errors-differ", "error multiset differs from BlockingExecutor")
@@ -98,7 +103,7 @@ def model_answer_view(ans, with_sched):
         v["steps"] = ans.get("steps")
     if v["status"] == "ok":
         v["data"] = ans.get("data")
-        v["errors"] = sorted(ans.get("errors", []), key=lambda x: json.dumps(x))
+        v["errors"] = sorted(ans.get("errors", []), key=lambda x: dumps(x))
     if v["status"] == "failed":
         v["exc"] = ans.get("exc")
     return v
@@ -151,6 +156,8 @@ class Checker:
                 bad = compare_to_reference(case, ref, obs, config)
                 if bad:
                     out.append((bad[0], config, sched, bad[1]))
+                    if bad[0] == "never-completes":      # every further schedule would cost a watchdog period
+                        return out
             if self.extra_oracle is not None:
                 bad = self.extra_oracle(case, config, sched, obs)
                 if bad:
@@ -167,7 +174,7 @@ class Checker:
         if sched is not None:
             ctx.stat("tasks=%d" % len(obs["sizes"]))
             if obs["sizes"]:
-                ctx.nontrivial((json.dumps(W.to_model(case), sort_keys=True), tuple(obs["choices"])))
+                ctx.nontrivial((dumps(W.to_model(case), sort_keys=True), tuple(obs["choices"])))
         if not ctx.model_ok:
             return
         if sched is None:
@@ -186,8 +193,14 @@ class Checker:
         answers = ctx.driver.ask([p[0] for p in self.pending])
         for (req, expect, case, config, sched), ans in zip(self.pending, answers):
             got = model_answer_view(ans, sched is not None)
-            if json.dumps(got, sort_keys=False) != json.dumps(expect, sort_keys=False):
-                diff = [k for k in expect if json.dumps(expect.get(k)) != json.dumps(got.get(k))] or ["keys"]
+            if dumps(got, sort_keys=False) != dumps(expect, sort_keys=False):
+                diff = [k for k in expect if dumps(expect.get(k)) != dumps(got.get(k))] or ["keys"]
+                ncorr = len([f for f in ctx.found if f["kind"] == "correspondence"])
+                if ncorr >= 2:      # enough shrunk examples: only count further disagreements
+                    ctx.fail("corr:%s:%s:%s:further" % (self.prop, config, diff[0]),
+                             "Lean model and %s differ on %s" % (config, ",".join(diff)),
+                             {"case": case, "config": config, "differs": diff, "schedule": sched}, kind="correspondence")
+                    continue
                 small = self.shrink_corr(case, config, sched, diff[0])
                 ctx.fail("corr:%s:%s:%s:%s" % (self.prop, config, diff[0], "+".join(sorted(W.features(small)))),
                          "Lean model and %s differ on %s" % (config, ",".join(diff)),
@@ -206,17 +219,23 @@ class Checker:
                 req = ({"op": "blocking", "case": W.to_model(c)} if s is None
                        else {"op": "async", "case": W.to_model(c), "schedule": obs["choices"]})
                 got = model_answer_view(ctx.driver.ask([req])[0], s is not None)
-                if json.dumps(got.get(key)) != json.dumps(model_view(obs, s is not None).get(key)):
+                if dumps(got.get(key)) != dumps(model_view(obs, s is not None).get(key)):
                     return True
             return False
         try:
-            return W.shrink(case, still, budget=60)
+            return W.shrink(case, still, budget=40, seconds=5.0)
         except Exception:
             return case
 
     # -- one case, fully ----------------------------------------------------
+    def enough(self):
+        """stop generating once a few distinct failures are in hand (keeps a broken tree's run short)"""
+        return len([f for f in self.ctx.found if f["kind"] == "property"]) >= 3
+
     def check(self, case, rng=None):
         ctx = self.ctx
+        if self.enough():
+            return True
         for f in W.features(case):
             ctx.stat("feature=" + f)
         fails = self.failures_of(case, rng, collect_model=True)
@@ -225,9 +244,9 @@ class Checker:
         what, config = fails[0][0], fails[0][1]
 
         def still(c):
-            return any(f[0] == what and f[1] == config for f in self.failures_of(c, cap=60))
-        small = W.shrink(case, still)
-        sf = [f for f in self.failures_of(small, cap=200) if f[0] == what and f[1] == config] or fails
+            return any(f[0] == what and f[1] == config for f in self.failures_of(c, cap=24))
+        small = W.shrink(case, still, budget=20 if what == "never-completes" else 120)
+        sf = [f for f in self.failures_of(small, cap=100) if f[0] == what and f[1] == config] or fails
         sig = "%s:%s:%s:%s" % (self.prop.lower(), what, config, "+".join(sorted(W.features(small))))
         ctx.fail(sig, "%s (%s)" % (sf[0][3], config),
                  {"case": small, "config": config, "schedule": sf[0][2], "what": what, "document": W.document(small)})
@@ -365,7 +384,7 @@ def real_thread_smoke(ctx, n=12):
                 ctx.notes.append("real-thread smoke: unexpected %s" % type(err).__name__)
                 continue
             ran += 1
-            if ref["status"] == "ok" and (json.dumps(res.data) != json.dumps(ref["data"]) or W.canon_errors(res.errors) != ref["errors"]):
+            if ref["status"] == "ok" and (dumps(res.data) != dumps(ref["data"]) or W.canon_errors(res.errors) != ref["errors"]):
                 ctx.fail("c08:data-differs:threadpool-real-threads", "real thread pool result differs from BlockingExecutor",
                          {"case": case, "config": "threadpool-real", "schedule": None})
     finally:
